@@ -88,6 +88,9 @@ def recheck(ids):
                 if fired:
                     rep[pid] = fired[:6]
             own = meta['property']
+            if 'error' in rep:
+                print(sid, 'EXTRACT-FAILED (meta.json left as it was)', rep['error'][-160:].replace('\n', ' '))
+                continue
             meta['caught_by'] = rep.get(own, [])
             if not own_only:
                 meta['also_reported_by'] = {k: v for k, v in rep.items() if k != own}
